@@ -132,3 +132,32 @@ Example C05_nonvacuous :
   read v 5368713216 4 4 = slice v 4096 4 4 /\ slice v 4096 4 4 = Ok {| r_off := 4096; r_len := 4096 |} /\
   rd_c_str (v_get v) (slice v) 4096 = Ok {| r_off := 4096; r_len := 5 |}.
 Proof. exact ViewsProofs.nonvacuous_example. Qed.
+
+(* ---- leaf functions regenerated from the source on every run (tools/gen_leaf.py -> gen/Leaf.v): agreement with the hand-written model ---- *)
+(* src/util/align.rs: impl_align_to! expanded for u32 and for usize, regenerated from the source on every run, is
+   Machine.align_to / aligned_to exactly when the source's debug assertion holds (align is a power of two) *)
+From PV.gen Require Leaf.
+From PV.Proofs Require LeafAlign.
+Theorem C05_leaf_align_to_u32 : forall x a, Leaf.L_align_u32_align_to_dom x a = true -> Leaf.L_align_u32_align_to_ok x a = true ->
+  Leaf.L_align_u32_align_to x a = Machine.align_to W32 a x.
+Proof. exact LeafAlign.align_u32_align_to_agrees. Qed.
+Print Assumptions C05_leaf_align_to_u32.
+Theorem C05_leaf_aligned_to_u32 : forall x a, Leaf.L_align_u32_aligned_to_dom x a = true -> Leaf.L_align_u32_aligned_to_ok x a = true ->
+  Leaf.L_align_u32_aligned_to x a = Machine.aligned_to a x.
+Proof. exact LeafAlign.align_u32_aligned_to_agrees. Qed.
+Print Assumptions C05_leaf_aligned_to_u32.
+Theorem C05_leaf_align_to_usize : forall x a, Leaf.L_align_usize_align_to_dom x a = true -> Leaf.L_align_usize_align_to_ok x a = true ->
+  Leaf.L_align_usize_align_to x a = Machine.align_to W64 a x.
+Proof. exact LeafAlign.align_usize_align_to_agrees. Qed.
+Print Assumptions C05_leaf_align_to_usize.
+Theorem C05_leaf_aligned_to_usize : forall x a, Leaf.L_align_usize_aligned_to_dom x a = true -> Leaf.L_align_usize_aligned_to_ok x a = true ->
+  Leaf.L_align_usize_aligned_to x a = Machine.aligned_to a x.
+Proof. exact LeafAlign.align_usize_aligned_to_agrees. Qed.
+Print Assumptions C05_leaf_aligned_to_usize.
+Theorem C05_leaf_align_precondition : forall x a, Leaf.L_align_usize_align_to_ok x a = true <-> exists k, a = 2 ^ k.
+Proof. exact LeafAlign.align_usize_ok_iff. Qed.
+Print Assumptions C05_leaf_align_precondition.
+Theorem C05_leaf_align_non_pow2_differs :
+  Leaf.L_align_u32_align_to_ok 5 3 = false /\ Leaf.L_align_u32_align_to 5 3 = 5 /\ Machine.align_to W32 3 5 = 6.
+Proof. exact LeafAlign.align_to_non_pow2_differs. Qed.
+Print Assumptions C05_leaf_align_non_pow2_differs.
